@@ -171,9 +171,41 @@ def required_resets(ctx, P, rid, only=None):
     ctx.check(rid, len(reuse) == 1 and paths.guarded(da, reuse[0], lambda fn, cc, pol: paths.rel(fn, cc, pol, subst=False) in (("align->frame", "==", "d->acmod->output_frame"), ("d->acmod->output_frame", "==", "align->frame"))), key(da, "reuse-test"), da.where(da.root), "a cached alignment is returned without comparing its frame count with the frames searched")
 
 
+def import_rule(ctx, P):
+    """decoder_set_cmn replaces the whole normalisation state"""
+    r = ctx.rule("RESET.G4-cmn-import", "importing a channel mean replaces the whole state: before the values are parsed the mean and the sum are cleared over all veclen components (or every component is assigned), and the frame count is set; what an earlier utterance adapted must not survive in components the text does not name", floor=3)
+    f = P.fn("cmn_set_repr", "cmn.c")
+    ctx.touch(f)
+    loops = f.find("While") + f.find("For")
+    first = min(loops, key=lambda lp: f.line(lp)) if loops else None
+    if first is None:
+        raise AnalysisIncomplete("anchor vanished: parsing loop of cmn_set_repr")
+    head = f.ch(first)[0] if f.k(first) == "While" else f.ch(first)[1]
+    hs = set(f.walk(head)) | {head}
+    for fld in ("cmn_mean", "sum"):
+        clears = []
+        for c in f.calls("memset"):
+            a = f.args(c)
+            if f.canon(a[0], subst=False) == "cmn->%s" % fld and f.constval(a[1]) == 0 and "cmn->veclen" in f.canon(a[2], subst=False):
+                clears.append(c)
+        ok = any(paths.always_before(f, head, lambda e, c=c: e == c) for c in clears)
+        if not ok:
+            # or a loop over all components that assigns each
+            for lp in f.find("For"):
+                q = paths.rel(f, f.ch(lp)[1], True, subst=False) if f.k(f.ch(lp)[1]) != "Absent" else None
+                if q and q[1] == "<" and q[2] == "cmn->veclen":
+                    st = [s_ for s_ in paths.stores(f, lp) if s_["path"].startswith("cmn->%s[" % fld) and s_["op"] == "="]
+                    if st and not [x for x in f.walk(lp) if f.k(x) in ("Break", "Continue", "Return")]:
+                        ok = True
+        ctx.check(r, ok, "cmn_set_repr:clears:" + fld, f.where(head), "cmn->%s is not cleared over all veclen components before the text is parsed: a text with fewer values leaves the other components as the previous utterances adapted them" % fld)
+    nf = [s_ for s_ in paths.stores(f) if s_["path"] == "cmn->nframe" and s_["op"] == "="]
+    ctx.check(r, bool(nf) and all(paths.must_pass(f, head, lambda e, n_=s_["node"]: e == n_) for s_ in nf[:1]), "cmn_set_repr:nframe", f.where(f.root), "the frame count is not set on every path of the import")
+
+
 def run(ctx):
     P = ctx.P
     P.load_all()
+    import_rule(ctx, P)
 
     # ---- G1 ------------------------------------------------------------------------------------------
     g1 = ctx.rule("CENSUS.G1-static-storage", "every object of static storage (file scope or function-static) that is not const is never written, or is in the reasoned table (logging configuration allowed; random-number and frequency-warping state are known findings); a new writable global or function-static is a violation", floor=30)
